@@ -60,7 +60,7 @@ def _watchdog(stop, killed):
 
 
 def _group_key(o):
-    return (o.crate, o.checks)
+    return (o.crate, o.checks, "heavy" if o.heavy else "light")
 
 
 def kani_cmd(crate_dir, harnesses, checks, timeout, json_out, jobs):
@@ -97,19 +97,19 @@ def run(obs, scratch, scratch_repo, log, seed=0):
     env["CARGO_NET_OFFLINE"] = "true"
     env.pop("RUSTUP_TOOLCHAIN", None)
     try:
-        keys = sorted(groups, key=lambda k: -len(groups[k]))
-        # crate groups are independent cargo invocations: run up to two at a time
-        par = 2 if len(keys) > 1 else 1
-        jobs_each = JOBS if par == 1 else max(4, (JOBS * 5) // 8)
+        # heavy groups first, then by size; groups are independent cargo invocations: up to three at a time
+        keys = sorted(groups, key=lambda k: (k[2] != "heavy", -len(groups[k])))
+        par = min(3, len(keys))
+        jobs_each = JOBS if par == 1 else (10 if par == 2 else 7)
 
         def one(key):
-            crate, checks = key
+            crate, checks, weight = key
             g = groups[key]
             if seed:
                 # the seed only permutes scheduling order; there are no random inputs
                 g = sorted(g, key=lambda o: hash((seed, o.harness)))
             timeout = max(o.timeout for o in g)
-            json_out = os.path.join(scratch, "kani-%s-%s.json" % (crate, checks))
+            json_out = os.path.join(scratch, "kani-%s-%s-%s.json" % (crate, checks, weight))
             if os.path.exists(json_out):
                 os.remove(json_out)
             crate_dir = os.path.join(scratch_repo, crate)
@@ -126,9 +126,9 @@ def run(obs, scratch, scratch_repo, log, seed=0):
                 out += "\n[driver] overall timeout %ds" % overall
                 rc = -1
             dt = time.time() - t0
-            with open(os.path.join(scratch, "kani-%s-%s.log" % (crate, checks)), "w") as fh:
+            with open(os.path.join(scratch, "kani-%s-%s-%s.log" % (crate, checks, weight)), "w") as fh:
                 fh.write(" ".join(cmd) + "\n" + out)
-            return ("kani %s [%s]: %d harnesses, rc=%s, %.1fs" % (crate, checks, len(g), rc, dt),
+            return ("kani %s [%s/%s]: %d harnesses, rc=%s, %.1fs" % (crate, checks, weight, len(g), rc, dt),
                     classify(g, json_out, out, rc, " ".join(cmd), dt))
 
         from concurrent.futures import ThreadPoolExecutor
